@@ -469,6 +469,21 @@ pub fn generate(seed: u64, n: usize, thorough: bool, corpus: Option<&str>) -> Ve
         push(format!("min {}\ns.t.\n    {}\nwhere\n    let i = 0\ndefine\n    {}\n", obj, con, dom), "printer-edges", &mut cases);
     }
 
+    // --- escaped names (`\\x_1`: the variable whose NAME has inner underscores) in every position a variable can take
+    for (obj, cons, dom) in [
+        ("\\x_1 + 2 \\y_a_2", "\\cap_1: \\x_1 + \\y_a_2 >= 1\n    \\x_1 <= 3", "\\x_1, \\y_a_2 as Real"),
+        ("3\\x_1 - (\\x_1 + z) * 2", "z >= -\\x_1\n    not \\b_1 or \\b_2", "\\x_1, z as NonNegativeReal(0, 10)\n    \\b_1, \\b_2 as Boolean"),
+        ("min { \\x_1, 2 } + sum(i in 0..2) { i * \\x_1 }", "\\x_1 >= abs { z } for i in 0..2", "\\x_1 as IntegerRange(0, 5)\n    z as Real"),
+        ("z_{\\k_1} + z_{\\k_1}_2 + a[\\k_1]", "c_{\\k_1}: z_1 >= 1", "z_1, \\k_1 as Real"),
+        ("\\total_a_12 / 2", "\\for_1 >= 1\n    \\Total_A_b <= \\total_a_12", "\\total_a_12, \\for_1, \\Total_A_b as Real"),
+        ("\\x_1", "\\x_1 >= 1", "\\x_1 as Real(\\lo_1, 4)\n    \\lo_1 as Real"),
+        ("2(\\x_1)(\\y_2)", "\\x_1 \\y_2 >= 1", "\\x_1, \\y_2 as Real"),
+        ("\\x_1[0]", "\\x_1 >= 1", "\\x_1 as Real"), ("\\x_1.5", "\\x_1 >= 1", "\\x_1 as Real"), ("\\x_{i}", "z >= 1", "z as Real"),
+        ("\\_x_1", "z >= 1", "z as Real"), ("\\x__1", "z >= 1", "z as Real"), ("\\x_1_", "z >= 1", "z as Real"), ("\\ x_1", "z >= 1", "z as Real"),
+        ("\\x_1 (2)", "z >= 1", "z as Real"), ("\\x_1 { 2 }", "z >= 1", "z as Real"), ("\\é_1 + \\x_é2", "z >= 1", "z as Real")] {
+        push(format!("min {}\ns.t.\n    {}\ndefine\n    {}\n", obj, cons, dom), "escaped-names", &mut cases);
+    }
+
     // --- MALFORMED programs, by class: every error of the AST builders at every position of a program, pairs of errors
     //     (which one is reported first), and texts the grammar refuses; parsed by the implementation and by the parser
     //     model, the CLASS of the rejection is compared (tags `program-rejected:<class>`)
